@@ -224,10 +224,16 @@ class GaussianKDE(DensityEstimator):
         else:  # else just use the entire range of the samples
             lwr, upr = self.sample[0], self.sample[-1]
 
+        # search in an offset coordinate with a tolerance relative to the width of
+        # the bounds, so that the result is independent of the location and scale of the data
+        width = upr - lwr
         result = minimize_scalar(
-            lambda x: -self(x), bounds=[lwr, upr], method="bounded"
+            lambda t: -self(lwr + t),
+            bounds=[0.0, width],
+            method="bounded",
+            options={"xatol": 1e-5 * width},
         )
-        return result.x
+        return lwr + result.x
 
     def moments(self):
         """
